@@ -7,7 +7,7 @@ PID = "C11"
 RULE = ("texts = interleaved well-formed checksum/size lines for 1-5 files (extra blanks/tabs between fields, leading blanks, "
         "trailing CR, algorithm names in random case) mixed with comment, blank, unknown-algorithm, bad-size, half-formed and "
         "garbage lines; names over arbitrary non-blank bytes; plus the patch/distfile classifier on a table of names; "
-        "non-trivial = >= 2 files interleaved or a name with a byte >= 0x80")
+        "plus EVERY sequence of <= 4 (thorough 5) tokens of the line grammar; non-trivial = >= 2 files interleaved or a name with a byte >= 0x80")
 FUNCTIONAL = True
 CLASS_TABLE = ["patch-x", "patch-local-x", "patch-x.orig", "patch-x.rej", "patch-x~", "x.patch-1", "emul-a-patch-b", "emul-patch-b", "emul-a-patch",
                "patch-2.7.6.tar.xz", "dir/patch-x", "patch-x/y", "patch-", "patch", "Patch-x", "emul-a-patch-b.tar.gz", "a/b/../patch-z",
@@ -27,6 +27,12 @@ def generate(rng, tier):
     cases = []
     for nm in CLASS_TABLE:
         cases.append(Case("di.classify", [enc(nm.encode("latin-1"))], meta={"nt": True}))
+    # small scope, exhaustively: every sequence of <= 4 (thorough 5) tokens of the line grammar
+    import itertools
+    toks = [b"SHA1", b"Size", b" ", b"(f)", b"(", b")", b"=", b"1", b"\n", b"bytes", b"patch-a", b"\t"]
+    for L in range(1, (5 if tier == "quick" else 6)):
+        for tup in itertools.product(toks, repeat=L):
+            cases.append(Case("di.parse", [enc(b"".join(tup))], meta={"nt": L >= 3}, tag="scope"))
     for _ in range(n):
         files = []
         for _ in range(rng.randint(1, 5)):
